@@ -474,6 +474,10 @@ fn name_candidates(seed: u64, extra: usize) -> Vec<String> {
             v.push(format!("{}{}", pre, w));
         }
     }
+    // the operator words themselves: not reserved, so plain names
+    for w in ["via", "into", "where"] {
+        v.push(w.to_string());
+    }
     for extra in ["android", "iffy", "orbit", "viable", "whereabouts", "intoxicated", "andromeda", "notable", "dozen", "thenceforth", "donut", "order", "notify", "nullable", "trueish", "falsey", "outputs", "returned", "thence", "elsewhere",
         "viaduct", "intox", "wherever", "infinite", "information", "constant", "input", "_", "__", "_1", "a1b2", "A", "Zz_9"] {
         v.push(extra.to_string());
